@@ -127,3 +127,202 @@ def run(rep, facts, tier):
     t0 = ogm.of_local(0, fm.return_blocks()[0], 'term')
     rep.check(has_call(t0, '::entry') and has_field(t0, 'fragment_assemblers') and term_has(t0, lambda x: x == ('param', 2)), 'R05.2', 'fragment_assembler_mutable/keyed-by-writer',
               'fragment_assemblers.entry(writer_guid)', 'assemblers are not keyed by the writer guid', fm.where())
+
+    rule_split_and_placement(rep, fx)
+    rule_size_slice_agreement(rep, fx)
+
+
+def rule_split_and_placement(rep, fx):
+    """R05.5-R05.7: the writer's split and the reader's placement are sibling formulas; they are compared as polynomials
+    (rdv/poly.py), so algebraic rewrites are fine and a changed operand, offset or rounding is not."""
+    from rdv.poly import poly, freeze, rename, ceil_div_operands, atom, strip
+    rep.rule('R05.5', 'writer split: data_frag_msg sends bytes_slice(data, (n-1)*fs, min(n*fs, size)) in a DataFrag{fragment_starting_num = n, fragments_in_submessage = 1, '
+                      'fragment_size = fs, data_size = size}; both callers pass fs = data_max_size_serialized and size = payload_size() of the very change sent; the send loop '
+                      'covers fragment numbers 1..=num_frags')
+    rep.rule('R05.6', 'reader placement: insert_frags copies the payload from offset 0 to buffer offset (fragment_starting_num-1)*frag_size, the same polynomial as the writer\'s start offset')
+    rep.rule('R05.7', 'fragment counts agree: the writer\'s num_frags and the reader\'s total_number_of_fragments are both ceil(size / fragment size) of the corresponding operands')
+    # ---------------------------------------------------------------- R05.5 (a) the builder
+    b = fx.find('rtps::message::MessageBuilder::data_frag_msg')
+    rep.analysed(b)
+    og = Origins(b, summaries=False)
+    df = [(bb, si, st) for bb, si, st in b.statements() if st['s'] == 'assign' and st['rv']['r'] == 'agg' and strip_generics(str(st['rv'].get('adt'))).endswith('data_frag::DataFrag')]
+    if len(df) != 1:
+        raise CheckBroken('data_frag_msg: expected one DataFrag construction, found %d' % len(df))
+    bb, si, st = df[0]
+    f = dict(zip(st['rv']['fields'], [og.of_operand(o, bb, si) for o in st['rv']['ops']]))
+    n, fs, size = strip(f['fragment_starting_num']), strip(f['fragment_size']), strip(f['data_size'])
+    rep.check(all(x[0] == 'param' for x in (n, fs, size)) and len({n, fs, size}) == 3, 'R05.5', 'data_frag_msg/fields',
+              'fragment_starting_num, fragment_size, data_size are three distinct parameters', 'the DataFrag header fields are not the builder\'s fragment number / fragment size / sample size parameters', b.where(bb, si))
+    rep.check(strip(f['fragments_in_submessage']) == ('const', 'int', 1), 'R05.5', 'data_frag_msg/one-fragment', 'fragments_in_submessage = 1',
+              'fragments_in_submessage is not 1 although the builder slices exactly one fragment', b.where(bb, si))
+    pay = f['serialized_payload']
+    slices = [x for x in term_leaves(pay) if x[0] == 'call' and x[1].endswith('bytes_slice')]
+    # with security the payload passes through encode_serialized_payload; the slice is found inside the term
+    if not slices:
+        slices = [og._call(t, cb, 0) for cb, t in b.calls() if callee_res(t).endswith('DDSData::bytes_slice')]
+    ok = False
+    w_from = None
+    if slices:
+        s_ = slices[0]
+        w_from, w_to = poly(s_[2][1]), s_[2][2]
+        an, afs, asz = atom(n), atom(fs), atom(size)
+        want_from = {tuple(sorted((an, afs), key=repr)): 1, (afs,): -1}
+        want_to = ('min', frozenset([freeze({tuple(sorted((an, afs), key=repr)): 1}), freeze({(asz,): 1})]))
+        ok = freeze(w_from) == freeze(want_from) and atom(w_to) == want_to and term_has(s_[2][0], lambda x: x[0] == 'field' and x[1] == 'data_value')
+    rep.check(ok, 'R05.5', 'data_frag_msg/slice', 'payload = data_value.bytes_slice((n-1)*fs, min(n*fs, size))',
+              'the fragment payload is not bytes (n-1)*fs .. min(n*fs, size) of the change: reassembly at the reader cannot give back the written bytes', b.where(bb, si))
+    # ---------------------------------------------------------------- R05.5 (b) the callers
+    n_call = 0
+    for cb in fx.bodies:
+        for cbb, t in cb.calls():
+            if not callee_res(t).endswith('MessageBuilder::data_frag_msg'):
+                continue
+            n_call += 1
+            rep.analysed(cb)
+            ogc = Origins(cb, summaries=False)
+            a = [ogc.of_operand(x, cbb, 'term') for x in t['args']]
+            # params of data_frag_msg: self, cache_change, reader_entity_id, writer_guid, fragment_number, fragment_size, sample_size, ...
+            cc, frag, fsz, ssz = a[1], a[4], a[5], a[6]
+            def single_atom(tm):
+                pl = poly(tm)
+                if len(pl) == 1:
+                    (m, c), = pl.items()
+                    if c == 1 and len(m) == 1:
+                        return m[0]
+                return None
+            afsz, assz = single_atom(fsz), single_atom(ssz)
+            ok_fs = afsz is not None and ((afsz[0] == 'field' and afsz[1] == 'data_max_size_serialized') or
+                                          (afsz[0] == 'field' and afsz[1] == '1' and afsz[2][0] == 'call' and afsz[2][1].endswith('num_frags_and_frag_size')))
+            ok_sz = assz is not None and assz[0] == 'call' and assz[1].endswith('payload_size') and len(assz[2]) == 1 and \
+                assz[2][0][0] == 'field' and assz[2][0][1] == 'data_value' and assz[2][0][2] == atom(cc)
+            rep.check(ok_fs, 'R05.5', '%s/call#%d/fragment-size' % (cb.key, n_call), 'fragment size = the writer\'s data_max_size_serialized',
+                      'data_frag_msg is called with a fragment size that is not the writer\'s data_max_size_serialized (%s)' % term_str(fsz)[:100], cb.where(cbb))
+            rep.check(ok_sz, 'R05.5', '%s/call#%d/sample-size' % (cb.key, n_call), 'sample size = payload_size() of the change being sent',
+                      'data_frag_msg is called with a sample size that is not payload_size() of the same cache change (%s)' % term_str(ssz)[:100], cb.where(cbb))
+            # the send loop: fragment numbers from range_inclusive(new(1), new(num_frags(payload_size)))
+            rng = [x for x in term_leaves(frag) if x[0] == 'call' and x[1].endswith('range_inclusive')]
+            if rng:
+                lo, hi = strip(rng[0][2][0]), strip(rng[0][2][1])
+                lo_ok = lo[0] == 'call' and lo[1].endswith('FragmentNumber::new') and strip(lo[2][0]) == ('const', 'int', 1)
+                hi_ok = hi[0] == 'call' and hi[1].endswith('FragmentNumber::new') and term_has(hi, lambda x: x[0] == 'call' and x[1].endswith('num_frags_and_frag_size')) \
+                    and term_has(hi, lambda x: x[0] == 'field' and x[1] == '0')
+                nf = [x for x in term_leaves(hi) if x[0] == 'call' and x[1].endswith('num_frags_and_frag_size')]
+                arg_ok = bool(nf) and any(y[0] == 'call' and y[1].endswith('payload_size') for y in term_leaves(nf[0][2][1]))
+                rep.check(lo_ok and hi_ok and arg_ok, 'R05.5', '%s/call#%d/loop' % (cb.key, n_call), 'fragment numbers 1..=num_frags(payload_size)',
+                          'the send loop does not cover fragment numbers 1..=num_frags of the payload: %s' % term_str(frag)[:140], cb.where(cbb))
+            else:
+                # repair path: the fragment number comes from the reader's request
+                rep.check(term_has(frag, lambda x: x[0] == 'call' and 'frags_requested' in x[1]), 'R05.5', '%s/call#%d/requested' % (cb.key, n_call),
+                          'fragment number = a requested fragment', 'the fragment number sent by the repair path is not the requested one', cb.where(cbb))
+    rep.floor('R05.5', n_call, 2, 'call sites of data_frag_msg')
+    # ---------------------------------------------------------------- R05.6 reader placement
+    ins = fx.find(FA + 'AssemblyBuffer::insert_frags')
+    rep.analysed(ins)
+    ogi = Origins(ins, summaries=False)
+    copies = [(cbb, t) for cbb, t in ins.calls() if callee_res(t).endswith('copy_from_slice')]
+    if len(copies) != 1:
+        raise CheckBroken('insert_frags: expected one copy_from_slice, found %d' % len(copies))
+    cbb, t = copies[0]
+    dst, src = ogi.of_operand(t['args'][0], cbb, 'term'), ogi.of_operand(t['args'][1], cbb, 'term')
+    ok_dst = dst[0] == 'call' and dst[1].endswith('index_mut') and term_has(dst[2][0], lambda x: x[0] == 'field' and x[1] == 'buffer_bytes')
+    ok_src = src[0] == 'call' and src[1].endswith('::index') and term_has(src[2][0], lambda x: x[0] == 'field' and x[1] == 'serialized_payload') \
+        and src[2][1][0] == 'agg' and str(src[2][1][1]).endswith('ops::RangeTo')
+    ok_pl = False
+    if ok_dst and dst[2][1][0] == 'agg' and str(dst[2][1][1]).endswith('ops::Range') and w_from is not None:
+        r_from = poly(dst[2][1][2][0])
+        # roles: the reader's fragment number is datafrag.fragment_starting_num, its fragment size the frag_size parameter
+        r_n = [a_ for m in r_from for a_ in m if a_[0] == 'field' and a_[1] == 'fragment_starting_num']
+        r_fs = [a_ for m in r_from for a_ in m if a_[0] == 'param']
+        if r_n and r_fs:
+            mapped = rename(w_from, {atom(n): r_n[0], atom(fs): r_fs[0]})
+            ok_pl = freeze(mapped) == freeze(r_from)
+        # the end of the destination is start + length of the source slice
+        if ok_pl and ok_src:
+            r_to = dst[2][1][2][1]
+            s_len = src[2][1][2][0]
+            ok_pl = freeze(poly(s_len)) == freeze(padd_(poly(r_to), r_from))
+    rep.check(ok_dst and ok_src and ok_pl, 'R05.6', 'insert_frags/placement', 'buffer[(start-1)*fs .. to] <- payload[.. to - (start-1)*fs]',
+              'insert_frags does not place the fragment payload (from its offset 0) at (fragment_starting_num-1)*frag_size, the offset the writer cut it from', ins.where(cbb))
+    # ---------------------------------------------------------------- R05.7 counts
+    nfb = fx.find('rtps::writer::Writer::num_frags_and_frag_size')
+    tnb = fx.find('messages::submessages::data_frag::DataFrag::total_number_of_fragments')
+    rep.analysed(nfb, tnb)
+    ogn, ogt = Origins(nfb, summaries=False), Origins(tnb, summaries=False)
+    w = None
+    for bb_, si_, st_ in nfb.statements():
+        if st_['s'] == 'assign' and st_['lhs']['l'] == 0 and not st_['lhs'].get('p') and st_['rv']['r'] == 'agg' and len(st_['rv']['ops']) == 2:
+            cnt, fsz = ogn.of_operand(st_['rv']['ops'][0], bb_, si_), ogn.of_operand(st_['rv']['ops'][1], bb_, si_)
+            cd = ceil_div_operands(cnt)
+            w = cd is not None and cd[1] == freeze(poly(fsz)) and cd[0] == freeze({(('param', 2),): 1}) and \
+                term_has(fsz, lambda x: x[0] == 'field' and x[1] == 'data_max_size_serialized')
+    rep.check(bool(w), 'R05.7', 'num_frags_and_frag_size/ceil-div', 'num_frags = ceil(payload_size / data_max_size_serialized), returned with that fragment size',
+              'the writer\'s fragment count is not ceil(payload_size / fragment size) of the fragment size it returns', nfb.where())
+    r = None
+    for bb_, t_ in tnb.calls():
+        if callee_res(t_).endswith('FragmentNumber::new'):
+            cd = ceil_div_operands(ogt.of_operand(t_['args'][0], bb_, 'term'))
+            r = cd is not None and cd[0] == freeze({(('field', 'data_size', ('param', 1)),): 1}) and cd[1] == freeze({(('field', 'fragment_size', ('param', 1)),): 1})
+    rep.check(bool(r), 'R05.7', 'total_number_of_fragments/ceil-div', 'expected fragments = ceil(data_size / fragment_size)',
+              'the reader\'s expected fragment count is not ceil(data_size / fragment_size)', tnb.where())
+
+
+def padd_(a, b):
+    from rdv.poly import padd
+    return padd(a, b, -1)
+
+
+def rule_size_slice_agreement(rep, fx):
+    """R05.8: the size the writer announces (data_size, fragment count, last-fragment clamp all come from payload_size()) and the
+    bytes it can cut (bytes_slice) are computed by sibling functions per DDSData variant; they must describe the same byte string."""
+    from rdv.poly import poly, freeze, atom
+    rep.rule('R05.8', 'size/slice agreement: for every DDSData variant payload_size() is len_serialized() of the very object bytes_slice() cuts from, and '
+                      'SerializedPayload::len_serialized() equals the upper clamp of SerializedPayload::bytes_slice() (header + value)')
+    ps = fx.find('dds::ddsdata::DDSData::payload_size')
+    bs = fx.find('dds::ddsdata::DDSData::bytes_slice')
+    rep.analysed(ps, bs)
+    ogp, ogb = Origins(ps, summaries=False), Origins(bs, summaries=False)
+    sized = {}
+    for bb, t in ps.calls():
+        r = strip_generics(callee_res(t))
+        if r.endswith('::len_serialized'):
+            o = ogp.of_operand(t['args'][0], bb, 'term')
+            sized[atom(o)] = r.rsplit('::', 1)[0]
+    sliced = {}
+    for bb, t in bs.calls():
+        r = strip_generics(callee_res(t))
+        if r.endswith('::bytes_slice'):
+            o = ogb.of_operand(t['args'][0], bb, 'term')
+            sliced[atom(o)] = r.rsplit('::', 1)[0]
+    # every returned size of payload_size is one of these calls or a constant (the 16-byte key hash, which is never sent as DATAFRAG)
+    rets = []
+    for bb, si, st in ps.statements():
+        if st['s'] == 'assign' and st['lhs']['l'] == 0 and not st['lhs'].get('p'):
+            rets.append(ogp._rvalue(st['rv'], bb, si, 0))
+    for bb, t in ps.calls():
+        if t['dest']['l'] == 0 and not t['dest'].get('p'):
+            rets.append(ogp._call(t, bb, 0))
+    other = [r_ for r_ in rets if not (r_[0] == 'const' or (r_[0] == 'call' and r_[1].endswith('::len_serialized')))]
+    ok = bool(sized) and sized == sliced and not other
+    rep.check(ok, 'R05.8', 'DDSData/payload_size-vs-bytes_slice', 'payload_size() = len_serialized() of the object bytes_slice() cuts, for %d variant(s)' % len(sized),
+              'DDSData::payload_size and DDSData::bytes_slice do not describe the same bytes for every variant (sized: %s; sliced: %s; other sizes: %s): data_size, the fragment count '
+              'and the last fragment\'s end are then wrong for that variant and the reader reassembles a truncated or over-long sample' % (
+                  sorted(str(k)[:60] for k in sized), sorted(str(k)[:60] for k in sliced), [term_str(x)[:60] for x in other]), ps.where())
+    ls = fx.find('serialized_payload::SerializedPayload::len_serialized')
+    sb = fx.find('serialized_payload::SerializedPayload::bytes_slice')
+    rep.analysed(ls, sb)
+    ogl, ogs = Origins(ls, summaries=False), Origins(sb, summaries=False)
+    lens = []
+    for bb, si, st in ls.statements():
+        if st['s'] == 'assign' and st['lhs']['l'] == 0 and not st['lhs'].get('p'):
+            lens.append(freeze(poly(ogl._rvalue(st['rv'], bb, si, 0))))
+    clamps = []
+    for bb, t in sb.calls():
+        if strip_generics(callee_res(t)).endswith('cmp::min'):
+            a = [ogs.of_operand(x, bb, 'term') for x in t['args']]
+            if a[0] == ('param', 3):
+                clamps.append(freeze(poly(a[1])))
+            elif a[1] == ('param', 3):
+                clamps.append(freeze(poly(a[0])))
+    ok2 = len(set(lens)) == 1 and len(set(clamps)) == 1 and lens[0] == clamps[0]
+    rep.check(ok2, 'R05.8', 'SerializedPayload/len-vs-clamp', 'len_serialized() = the clamp of bytes_slice(): header + value length',
+              'SerializedPayload::len_serialized() and the upper clamp of SerializedPayload::bytes_slice() are different expressions', ls.where())
